@@ -27,6 +27,20 @@ import (
 type fakeUp struct {
 	id int
 	ep string
+	// every second upstream is a REAL upstream.ConnUpstream over a yamux session on an in-memory
+	// pipe (what upstreamRoute registers), so that code which looks at the session - is it closed? -
+	// sees what it would see in production
+	conn *upstream.ConnUpstream
+	sess *upstream.VSession
+	peer net.Conn
+}
+
+// obj is what is handed to the manager for this upstream.
+func (u *fakeUp) obj() upstream.Upstream {
+	if u.conn != nil {
+		return u.conn
+	}
+	return u
 }
 
 func (u *fakeUp) EndpointID() string     { return u.ep }
@@ -44,6 +58,7 @@ type mgrEngine struct {
 	gs   *pgossip.VState
 	mgr  *upstream.LoadBalancedManager
 	ups  map[string]*fakeUp // "uid/ep" -> object (pointer identity)
+	real map[*upstream.ConnUpstream]*fakeUp
 	lb   *upstream.VLoadBalancer
 	lbUp map[int]*fakeUp
 	// oracle bookkeeping for C15: reference registry endpoint -> list of ids
@@ -57,6 +72,13 @@ func New() Engine { return &mgrEngine{} }
 
 func (e *mgrEngine) Reset() {
 	e.cs, e.gs, e.mgr = nil, nil, nil
+	for _, u := range e.ups {
+		if u.sess != nil {
+			_ = u.sess.Close()
+			_ = u.peer.Close()
+		}
+	}
+	e.real = map[*upstream.ConnUpstream]*fakeUp{}
 	e.ups = map[string]*fakeUp{}
 	e.lb = upstream.VNewLB()
 	e.lbUp = map[int]*fakeUp{}
@@ -69,6 +91,11 @@ func (e *mgrEngine) up(uid int, ep string) *fakeUp {
 	u, ok := e.ups[k]
 	if !ok {
 		u = &fakeUp{id: uid, ep: ep}
+		if uid%2 == 1 {
+			u.sess, u.peer = upstream.VNewPipeSession()
+			u.conn = upstream.NewConnUpstream(ep, u.sess)
+			e.real[u.conn] = u
+		}
 		e.ups[k] = u
 	}
 	return u
@@ -195,14 +222,14 @@ func (e *mgrEngine) Step(ws []string, o *Out) string {
 		return "ok " + e.show()
 	case "add":
 		uid, ep := Atoi(ws[1]), Unhx(ws[2])
-		e.mgr.AddConn(e.up(uid, ep))
+		e.mgr.AddConn(e.up(uid, ep).obj())
 		e.ref[ep] = append(e.ref[ep], uid)
 		e.win[ep] = nil
 		e.oracleCounts(o)
 		return "ok " + e.show()
 	case "rm":
 		uid, ep := Atoi(ws[1]), Unhx(ws[2])
-		e.mgr.RemoveConn(e.up(uid, ep))
+		e.mgr.RemoveConn(e.up(uid, ep).obj())
 		if xs, ok := removeFirst(e.ref[ep], uid); ok {
 			e.ref[ep] = xs
 			o.Count("rm:effective")
@@ -210,6 +237,17 @@ func (e *mgrEngine) Step(ws []string, o *Out) string {
 			o.Count("rm:absent")
 		}
 		e.win[ep] = nil
+		e.oracleCounts(o)
+		return "ok " + e.show()
+	case "sessclose":
+		// the yamux session of a (real) upstream ends - client gone, shed, token expired - and the
+		// connection handler has not yet run its deferred RemoveConn: nothing is deregistered by
+		// this alone, whatever happens in between
+		uid, ep := Atoi(ws[1]), Unhx(ws[2])
+		if u := e.up(uid, ep); u.sess != nil {
+			_ = u.sess.Close()
+			o.Count("sessclose:real")
+		}
 		e.oracleCounts(o)
 		return "ok " + e.show()
 	case "sel":
@@ -229,7 +267,11 @@ func (e *mgrEngine) Step(ws []string, o *Out) string {
 			o.Fail("C15", "upstream-false", Hx(ep))
 			return "sel weird"
 		}
-		if fu, isLocal := u.(*fakeUp); isLocal {
+		fu, isLocal := u.(*fakeUp)
+		if cu, isConn := u.(*upstream.ConnUpstream); isConn {
+			fu, isLocal = e.real[cu], e.real[cu] != nil
+		}
+		if isLocal {
 			if fu.ep != ep {
 				o.Fail("C15", "wrong-endpoint", Hx(ep)+" got "+Hx(fu.ep))
 			}
@@ -498,6 +540,9 @@ func (e *mgrEngine) Gen(r *rand.Rand, n int, tier string, w *bufio.Writer) {
 					fmt.Fprintf(w, "rm %d %s\n", uid, Hx(ep))
 				}
 			default:
+				if r.Intn(8) == 0 {
+					fmt.Fprintf(w, "sessclose %d %s\n", uid, Hx(ep))
+				}
 				fmt.Fprintf(w, "sel %s %d\n", Hx(ep), r.Intn(2))
 			}
 			if r.Intn(12) == 0 {
